@@ -376,6 +376,7 @@ func init() {
 			outs, _ := runScenarioX(c, s, r, reps, &res, func(in *Inst) {
 				in.ZeroInput1 = zero + 1
 				in.ViaSet = viaSet
+				in.StaleUpper = c.Idx%11 == 4
 				if mixIn {
 					in.MixCase = r
 				}
@@ -463,6 +464,9 @@ func init() {
 			}
 			if c.Idx%60 == 2 {
 				return runC02Embedded(c, r)
+			}
+			if c.Idx%53 == 7 {
+				return runC02GeneratorChain(c, r)
 			}
 			if c.Idx%12 == 8 {
 				runDefaultsHistory(c, r, &res, nil)
@@ -697,5 +701,67 @@ func runC02OnceTarget(c *CaseCtx, r *rand.Rand) (res CaseResult) {
 		}
 	}
 	res.Sample = map[string]interface{}{"scenario": s.String(), "family": "once-target", "dropped_input": s.Inputs[drop].String(), "first_call": o1.Class}
+	return res
+}
+
+// runC02GeneratorChain: converter generators are shown the values of the call
+// as supplied and as the GIVEN converters produce them; whether a generator is
+// also shown what a converter manufactured by a generator produces is not
+// written down anywhere (the pinned library does not show it). A target that
+// needs the result of such a second-level converter is therefore either
+// underivable (and refused, always) or derivable (and served, always): R
+// identical calls must agree. A mix means that one of the two outcomes broke
+// the property under either reading.
+func runC02GeneratorChain(c *CaseCtx, r *rand.Rand) (res CaseResult) {
+	p := r.Perm(nConcrete)
+	tIn, tMid, tOut := p[0], p[1], p[2]
+	var s Scenario
+	s.Inputs = []Label{{Type: tIn}}
+	if r.Intn(2) == 0 {
+		s.Inputs[0].Name = pick(r, []string{"a", "b"})
+	}
+	first := posFn([]int{tIn}, []int{tMid})
+	first.Deliver, first.GenTrig = DelGen, tIn
+	second := posFn([]int{tMid}, []int{tOut})
+	second.Deliver, second.GenTrig = DelGen, tMid
+	s.Convs = []FuncSpec{first, second}
+	s.Target = FuncSpec{In: []Label{{Type: tOut}}, InForm: FormPos, OutForm: FormPos}
+	if r.Intn(2) == 0 {
+		s.Target.In[0].Name = "n"
+		s.Target.InForm = FormStruct
+	}
+	res.Key = "generator-chain " + s.Key()
+	res.NonTrivial = true
+	res.obs("family.generator-chain", 1)
+	res.obs("underivable_cases", 1)
+	in, err := Instantiate(s, r)
+	if err != nil {
+		res.Skip = "instantiate"
+		return res
+	}
+	reps := tierReps(c.Tier, 12, 40)
+	refused, served := 0, 0
+	for k := 0; k < reps; k++ {
+		o := DoCall(in.W, in.Target.Func, in.AllArgs(k, r))
+		res.Evals++
+		det := map[string]interface{}{"scenario": s.String(), "class": o.Class, "err": firstLine(errStr(o.Err)), "events": eventsStr(o.Events)}
+		switch {
+		case o.Class == ClsPanic:
+			res.violate("C06", "panic/"+crashKey(o.Panic), "Call panicked: "+o.Panic, det)
+		case o.Err != nil && targetEvents(o.Events) == 0:
+			refused++
+			if o.Class == ClsUnsat {
+				res.obs("refused_with_unsatisfied_error", 1)
+			}
+		case o.Err == nil && targetEvents(o.Events) == 1:
+			served++
+		default:
+			res.violate("C02", "underivable-target-ran", fmt.Sprintf("class %s with %d target executions", o.Class, targetEvents(o.Events)), det)
+		}
+	}
+	if refused > 0 && served > 0 {
+		res.violate("C02", "second-level-generated-converter-unstable", fmt.Sprintf("of %d identical calls %d were refused and %d executed the target: whether or not a generator is shown the output of a generated converter, one of the two outcomes is wrong", reps, refused, served), map[string]interface{}{"scenario": s.String()})
+	}
+	res.Sample = map[string]interface{}{"scenario": s.String(), "family": "generator-chain", "refused": refused, "served": served}
 	return res
 }
